@@ -15,6 +15,8 @@ def run(ctx, model_ok=True):
         addr = rng.choice([0, 768, 8192, 65535, 65536, 70000])
         lines.append(f"dosbin b{i} {addr} {hexs(bytes(rng.randrange(256) for _ in range(n)))}")
         lines.append(f"dostok t{i} {hexs(bytes(rng.randrange(256) for _ in range(n)))}")
+        pn = rng.choice([1, 511, 512, 513, 1024, rng.randrange(1, 3000)])
+        lines.append(f"probin pb{i} {rng.choice([0, 768, 8192, 65535, 65536, 73728, 1 << 20])} {hexs(bytes(rng.randrange(256) for _ in range(pn)))}")
     big = bytes(rng.randrange(256) for _ in range(65536))
     lines += [f"dosbin bb0 768 {hexs(big)}", f"dosbin bb1 768 {hexs(big[:-1])}", f"dostok tb0 {hexs(big)}", f"dostok tb1 {hexs(big[:-1])}"]
     if model_ok:
